@@ -876,6 +876,68 @@ fn class_of<T>(r: &Result<T, biscuit_auth::error::Token>) -> OClass {
     }
 }
 
+/// Direct oracle of C15's stability clause (implementation only): what the identifier lists
+/// of the tokens produced by append / seal / append_third_party look like next to the
+/// original's.  Filled by run_ops and by minted_in_threads, read by h_chain.
+pub static STABILITY_FAILURES: std::sync::Mutex<Vec<String>> = std::sync::Mutex::new(Vec::new());
+pub static STABILITY_CHECKED: std::sync::atomic::AtomicU64 = std::sync::atomic::AtomicU64::new(0);
+
+fn ids_stable(what: &str, before: &[Vec<u8>], after: Vec<Vec<u8>>, grows: bool) {
+    STABILITY_CHECKED.fetch_add(1, std::sync::atomic::Ordering::Relaxed);
+    let ok = if grows { after.len() == before.len() + 1 && after[..before.len()] == before[..] } else { after == before };
+    if !ok {
+        let h = |v: &[Vec<u8>]| v.iter().map(|x| hex::encode(&x[..x.len().min(12)])).collect::<Vec<_>>();
+        let mut f = STABILITY_FAILURES.lock().unwrap();
+        if f.len() < 40 {
+            f.push(format!("{}: identifiers of the existing blocks changed: before {:?} after {:?}", what, h(before), h(&after)));
+        }
+    }
+}
+
+/// Tokens with identical contents minted under one root key by several threads at the same
+/// time: no two of them may share a revocation identifier.
+pub fn minted_in_threads(root: &KeyPair, threads: usize, per_thread: usize) -> u64 {
+    let handles: Vec<_> = (0..threads)
+        .map(|_| {
+            let sk = root.private();
+            std::thread::spawn(move || {
+                let root = KeyPair::from(&sk);
+                let mut ids: Vec<Vec<u8>> = vec![];
+                for _ in 0..per_thread {
+                    if let Ok(t) = Biscuit::builder().fact("user(1)").and_then(|b| b.build(&root)) {
+                        if let Ok(t2) = t.append(BlockBuilder::new().fact("op(1)").unwrap()) {
+                            ids.extend(t2.revocation_identifiers());
+                        }
+                    }
+                }
+                ids
+            })
+        })
+        .collect();
+    let mut all: Vec<Vec<u8>> = vec![];
+    for h in handles {
+        if let Ok(v) = h.join() {
+            all.extend(v);
+        }
+    }
+    let n = all.len() as u64;
+    let mut seen = std::collections::HashSet::new();
+    let mut shared = 0;
+    for id in &all {
+        if !seen.insert(id.clone()) {
+            shared += 1;
+        }
+    }
+    STABILITY_CHECKED.fetch_add(n, std::sync::atomic::Ordering::Relaxed);
+    if shared > 0 {
+        STABILITY_FAILURES.lock().unwrap().push(format!(
+            "{} of {} revocation identifiers of tokens with identical contents minted by {} threads under one {:?} root key are shared",
+            shared, n, threads, root.algorithm()
+        ));
+    }
+    n
+}
+
 /// Results of append / seal / third_party_request / append_third_party on the honest token,
 /// through Biscuit, UnverifiedBiscuit, and both after a serialization round trip.
 pub fn run_ops(h: &Honest, rng: &mut Rng) -> Vec<(u64, OClass)> {
@@ -905,18 +967,46 @@ pub fn run_ops(h: &Honest, rng: &mut Rng) -> Vec<(u64, OClass)> {
             match b {
                 None => ops.push((10 * p + 4, OClass::Other)),
                 Some(b) => {
-                    ops.push((10 * p, class_of(&b.append_with_keypair(&adv.keypair(), blkb()))));
-                    ops.push((10 * p + 1, class_of(&b.seal())));
+                    let before = b.revocation_identifiers();
+                    let r0 = b.append_with_keypair(&adv.keypair(), blkb());
+                    let r1 = b.seal();
+                    let r3 = b.append_third_party_with_keypair(ext.public(), tp.clone(), adv.keypair());
+                    if let Ok(x) = &r0 {
+                        ids_stable("Biscuit::append", &before, x.revocation_identifiers(), true);
+                        if let Ok(y) = x.to_vec().and_then(|v| Biscuit::from(&v, root)) {
+                            ids_stable("Biscuit::append + round trip", &before, y.revocation_identifiers(), true);
+                        }
+                    }
+                    if let Ok(x) = &r1 {
+                        ids_stable("Biscuit::seal", &before, x.revocation_identifiers(), false);
+                        if let Ok(y) = x.to_vec().and_then(|v| Biscuit::from(&v, root)) {
+                            ids_stable("Biscuit::seal + round trip", &before, y.revocation_identifiers(), false);
+                        }
+                    }
+                    if let Ok(x) = &r3 {
+                        ids_stable("Biscuit::append_third_party", &before, x.revocation_identifiers(), true);
+                    }
+                    ops.push((10 * p, class_of(&r0)));
+                    ops.push((10 * p + 1, class_of(&r1)));
                     ops.push((10 * p + 2, class_of(&b.third_party_request())));
-                    ops.push((10 * p + 3, class_of(&b.append_third_party_with_keypair(ext.public(), tp.clone(), adv.keypair()))));
+                    ops.push((10 * p + 3, class_of(&r3)));
                 }
             }
         }
         match UnverifiedBiscuit::from(&h.bytes) {
             Err(_) => ops.push((14, OClass::Other)),
             Ok(u) => {
-                ops.push((10, class_of(&u.append_with_keypair(&adv.keypair(), blkb()))));
-                ops.push((11, class_of(&u.seal())));
+                let before = u.revocation_identifiers();
+                let r0 = u.append_with_keypair(&adv.keypair(), blkb());
+                let r1 = u.seal();
+                if let Ok(x) = &r0 {
+                    ids_stable("UnverifiedBiscuit::append", &before, x.revocation_identifiers(), true);
+                }
+                if let Ok(x) = &r1 {
+                    ids_stable("UnverifiedBiscuit::seal", &before, x.revocation_identifiers(), false);
+                }
+                ops.push((10, class_of(&r0)));
+                ops.push((11, class_of(&r1)));
                 ops.push((12, class_of(&u.third_party_request())));
                 let ser = tp.serialize().unwrap();
                 ops.push((13, class_of(&u.append_third_party_with_keypair(&ser, adv.keypair()))));
